@@ -96,6 +96,8 @@ type Sched struct {
 	lastYieldWall int64
 	heldSites     [4]uintptr // where the hold strategy parked its victims
 	heldN         int
+	callSteps     int // inline runs: yields since the harness started the current call
+	callBudget    int // 0 = none
 	diverged      int // replay of a decision list: picks whose recorded task was not runnable
 	spawned       int
 	planned       int // tasks registered before Start (the rest were spawned by go statements)
@@ -270,6 +272,19 @@ func (s *Sched) Drain() {
 //go:norace
 func (s *Sched) MarkEnded() { s.ended = true }
 
+// BeginCall is called by the harness before every call into the code under test (inline
+// runs): a single call that passes more scheduling points than the budget does not
+// terminate for the purposes of the simulation (a deterministic, step-counted livelock
+// verdict instead of a wall-clock watchdog).
+//
+//go:norace
+func (s *Sched) BeginCall() {
+	if s.planned == 1 {
+		s.callSteps = 0
+		s.callBudget = 5000000
+	}
+}
+
 //go:norace
 func (s *Sched) Spawned() int { return s.spawned }
 
@@ -427,6 +442,13 @@ func (s *Sched) Yield(site uintptr) {
 	t.yields++
 	t.lastSite = site
 	s.hitSite(site)
+	if s.callBudget > 0 {
+		s.callSteps++
+		if s.callSteps > s.callBudget {
+			s.fail("livelock", "one call of the code under test passed "+itoa(s.callBudget)+" scheduling points without returning")
+			return
+		}
+	}
 	if s.steps > s.cfg.MaxSteps {
 		s.fail("livelock", "step budget exceeded")
 		return
